@@ -22,7 +22,7 @@ def main():
     os.symlink(f"{VERIF}/.venv", f"{snap}/.venv")
     head = sh("git -C /repo rev-parse --short HEAD").stdout.strip()
     out = {}
-    if os.path.exists(f"{VERIF}/seeded/DETECTION.json"):
+    if os.path.exists(f"{VERIF}/seeded/DETECTION.json") and not os.environ.get("MATRIX_OUT"):
         out = json.load(open(f"{VERIF}/seeded/DETECTION.json"))
     try:
         for s in seeds:
@@ -52,9 +52,13 @@ def main():
                 sh(f"git -C {wt} checkout -- .")
             rec["detected"] = any(c["exit"] == 1 and c["violations"] > 0 for c in rec["checks"].values())
             out[s] = rec
-            meta["detection"] = rec
-            json.dump(meta, open(f"{d}/meta.json", "w"), indent=1)
-            json.dump(out, open(f"{VERIF}/seeded/DETECTION.json", "w"), indent=1, sort_keys=True)
+            alt = os.environ.get("MATRIX_OUT")  # a robustness run (e.g. another VERIF_SEED): results go elsewhere
+            if alt:
+                json.dump(out, open(alt, "w"), indent=1, sort_keys=True)
+            else:
+                meta["detection"] = rec
+                json.dump(meta, open(f"{d}/meta.json", "w"), indent=1)
+                json.dump(out, open(f"{VERIF}/seeded/DETECTION.json", "w"), indent=1, sort_keys=True)
             print(s, rec["detected"], {p: (c["exit"], c["violations"]) for p, c in rec["checks"].items()}, flush=True)
     finally:
         sh(f"git -C /repo worktree remove --force {wt}")
